@@ -81,6 +81,20 @@ func makeGuardDoc(g Guards, v *Vetoed) func(d *document.Document, e *gen.Edit) b
 				v.InsertBeforeTombstone++
 				return false
 			}
+		case "arr.before":
+			a, ok := c.(*json.Array)
+			if !ok || e.I >= a.Len() {
+				return true
+			}
+			// the anchor is the live predecessor of element I (or the head)
+			prev := -1
+			if e.I > 0 {
+				prev = arrPosOfIndex(a, e.I-1)
+			}
+			if g.InsertBeforeTombstone && arrSuccessorDead(a, prev) {
+				v.InsertBeforeTombstone++
+				return false
+			}
 		case "arr.front":
 			a, ok := c.(*json.Array)
 			if !ok {
